@@ -215,7 +215,7 @@ var attrDict = func() []string {
 var tagDictAll = append(append([]string{}, tagDict...), attrDict...)
 
 // exprDict is the expression token dictionary for parse.Expr.
-var exprDict = []string{"'\\uD83D\\uDE00'", "'\\uD83D\\uDE'", "'\\uD83D\\u'", "'\\uD83D\\'", "'\\uDE00\\uD83D'", "'\\u12'", "'\\u'", "'\\uZZZZ'", "'\\uD83Dx'", "'a\\", "'\\n\\t\\r\\b\\f\\\\\\'\\\"'", "1", "-1", "0x1F", "1.5", "2e3", "1e", "'s'", "'\\u00e9'", "'\\x'", "'", "\"", "null", "true", "$x", "$x.y", "$x?.y", "$x[0]", "$x?[", "$ij.a", "$", "a.b", "f(", "f(1)", ")", "(", "[", "]", "[:]", ":", ",", "?", "?:", "+", "-", "*", "/", "%", "<", "<=", "==", "!=", "!", "=", "and", "or", "not", "|", "}", "{", " ", "\n", "é", "\x00", "\xff", ".", ".5", "1.", "1 2 3", "@", "@param", "//", "/*", "٣", "-٣", "３", ".٣", "é", "$é", "Ⅷ", "²", "\u00a0", "\u2003", "-", "- ", "--"}
+var exprDict = []string{"if", "default", "print", "call", "log", "sp", "nil", "let", "foreach", "for", "case", "css", "literal", "msg", "switch", "param", "template", "namespace", "alias", "ifempty", "else", "elseif", "in", "plural", "debugger", "lb", "/if", "'\\uD83D\\uDE00'", "'\\uD83D\\uDE'", "'\\uD83D\\u'", "'\\uD83D\\'", "'\\uDE00\\uD83D'", "'\\u12'", "'\\u'", "'\\uZZZZ'", "'\\uD83Dx'", "'a\\", "'\\n\\t\\r\\b\\f\\\\\\'\\\"'", "1", "-1", "0x1F", "1.5", "2e3", "1e", "'s'", "'\\u00e9'", "'\\x'", "'", "\"", "null", "true", "$x", "$x.y", "$x?.y", "$x[0]", "$x?[", "$ij.a", "$", "a.b", "f(", "f(1)", ")", "(", "[", "]", "[:]", ":", ",", "?", "?:", "+", "-", "*", "/", "%", "<", "<=", "==", "!=", "!", "=", "and", "or", "not", "|", "}", "{", " ", "\n", "é", "\x00", "\xff", ".", ".5", "1.", "1 2 3", "@", "@param", "//", "/*", "٣", "-٣", "３", ".٣", "é", "$é", "Ⅷ", "²", "\u00a0", "\u2003", "-", "- ", "--"}
 
 var (
 	corpusOnce []string
